@@ -4,6 +4,7 @@
 EXTENDS MC_Expr, Json, IOUtils
 
 EmitTree ==
+  IsTree =>
   PrintT(<<"CASE", ToJson([min |-> RenderMin(x), full |-> RenderFull(x),
                            exp |-> Proj(Fold(x))])>>)
 EmitSoup ==
@@ -12,5 +13,5 @@ EmitSoup ==
 (* trees supplied by the harness (sampled to depth 5): AST_FILE holds a list *)
 FileTrees == JsonDeserialize(IOEnv.AST_FILE)
 FileInit == x \in {FileTrees[i] : i \in 1..Len(FileTrees)}
-FileSpec == FileInit /\ [][TreeNext]_x
+FileSpec == FileInit /\ [][UNCHANGED x]_x
 =============================================================================
